@@ -1314,8 +1314,8 @@ def _nas_run(sc, v, tier, seed, which):
     lnames = {s["name"]: len(s["opt"] or []) for s in shapes}
     v.extra["messages_only_in_library"] = sorted(set(lnames) - set(tnames))
     v.samples = [{k: evs[0][k] for k in ("abs", "canon")}, [e for e in evs if e["ev"] == "Path"][0]]
-    mine = [r for r in rejects if r["why"].startswith(which + ":")]
-    other = [r for r in rejects if not r["why"].startswith(which + ":")]
+    mine = [r for r in rejects if r["why"].startswith(which + ":") or (r.get("event") or {}).get("ev") == "Held"]
+    other = [r for r in rejects if r not in mine]
     if other:
         vlib.log("note: %d reject(s) belong to the sibling property" % len(other))
 
